@@ -149,6 +149,14 @@ func Applicable(kind NodeKind, isProp bool, rules []RuleAtom) (accept, judged bo
 		if o.Variant == "format-with-length-set" {
 			return false, true, "format type next to a length rule inside an or rule set"
 		}
+		switch o.Variant {
+		case "exclusive-empty-set":
+			return false, true, "min == max with an exclusive flag inside an or rule set"
+		case "foreign-kind-set":
+			return false, true, "a rule that does not apply to the kind an or rule set declares"
+		case "huge-length-set":
+			return false, true, "minLength above maxLength inside an or rule set (a bound of 2^64)"
+		}
 		if o.Variant == "ordered-set" {
 			return false, false, "or rule set without a type: no clause on its kind"
 		}
@@ -226,6 +234,17 @@ func Applicable(kind NodeKind, isProp bool, rules []RuleAtom) (accept, judged bo
 		if mn.Variant == "eq" && mx.Variant == "eq" && excl {
 			return false, true, "min == max with an exclusive flag"
 		}
+	}
+	// bounds of 2^64 and more: longer than every string / array (the example violates them), and a
+	// precision of that size is no precision a decimal example could be held to - what matters is
+	// that they are not silently taken for another number
+	for _, name := range []string{"minLength", "minItems"} {
+		if a := has(rules, name); a != nil && a.Variant == "huge" {
+			return false, true, name + " of 2^64: the example is shorter"
+		}
+	}
+	if a := has(rules, "precision"); a != nil && a.Variant == "huge" {
+		return false, false, "precision of 2^64+1: no clause (rejecting the value or accepting the rule are both defensible)"
 	}
 	// a bound equal to the example with its exclusive flag true: the example violates it (C04)
 	if mn != nil && mn.Variant == "eq" {
